@@ -62,6 +62,11 @@ func (op *LogOp) ApplyTo(cstate consensus.State) (consensus.State, error) {
 	// to make sure no data races occur.
 	op.Cid = nil
 
+	// Raft may replay log entries right after starting, before the
+	// Cluster has handed us the RPC client. The tracker cannot be
+	// notified then (it will sync with the state when the peer is ready).
+	rpcClient := op.consensus.rpcClient
+
 	switch op.Type {
 	case LogOpPin:
 		err = state.Add(ctx, pin)
@@ -69,8 +74,12 @@ func (op *LogOp) ApplyTo(cstate consensus.State) (consensus.State, error) {
 			logger.Error(err)
 			goto ROLLBACK
 		}
+		if rpcClient == nil {
+			logger.Warnf("pin %s applied before RPC is ready: tracker not notified", pin.Cid)
+			break
+		}
 		// Async, we let the PinTracker take care of any problems
-		op.consensus.rpcClient.GoContext(
+		rpcClient.GoContext(
 			ctx,
 			"",
 			"PinTracker",
@@ -85,8 +94,12 @@ func (op *LogOp) ApplyTo(cstate consensus.State) (consensus.State, error) {
 			logger.Error(err)
 			goto ROLLBACK
 		}
+		if rpcClient == nil {
+			logger.Warnf("unpin %s applied before RPC is ready: tracker not notified", pin.Cid)
+			break
+		}
 		// Async, we let the PinTracker take care of any problems
-		op.consensus.rpcClient.GoContext(
+		rpcClient.GoContext(
 			ctx,
 			"",
 			"PinTracker",
